@@ -22,6 +22,9 @@ func init() {
 	parts["kernel-perm"] = func(seed uint64, tier string, replay []string) *lib.Result {
 		return corrKernel(seed, tier, replay, "C03", fsGenOpts{users: true, symlinks: true, kernel: true}, 15)
 	}
+	parts["kernel-small"] = func(seed uint64, tier string, replay []string) *lib.Result {
+		return corrKernel(seed, tier, replay, "C01", fsGenOpts{files: true, users: true, symlinks: true, kernel: true, small: true}, 16)
+	}
 	parts["kernel-links"] = func(seed uint64, tier string, replay []string) *lib.Result {
 		return corrKernel(seed, tier, replay, "C04", fsGenOpts{symlinks: true, kernel: true}, 13)
 	}
@@ -158,6 +161,33 @@ func corrKernelWith(k kImpl, seed uint64, tier string, replay []string, prop str
 		}
 		st.Count("replay", "replay")
 		st.Count("replay", "replay2")
+	} else if opts.small {
+		res.Rule = "the bounded-exhaustive scenarios of small.go (one level shallower than against the model: " + smallRule() + ") issued to " + k.name + " and, through OsFS, to the Linux kernel on a fresh tmpfs directory (users through setfsuid); outcomes and the whole tree after every call; a case is one call; distinct non-trivial = distinct (scenario, call kind, outcome)"
+		sh, names := smallHistoriesDepth(tier, "", -1)
+		seenSig := map[string]bool{}
+		for i, h0 := range sh {
+			if names[i] == "removeall-foreign-subdir" && false {
+				continue
+			}
+			l, a, b := runBothWith(k, h0)
+			for j := range l {
+				if j < len(a) && !strings.HasSuffix(l[j], " snap") && len(strings.Fields(l[j])) > 2 {
+					kind, key := fsKey(l[j], a[j])
+					st.Count(names[i]+"|"+kind, names[i]+"|"+key)
+				}
+			}
+			if d := lib.FirstDiff(a, b); d >= 0 {
+				// one representative per (scenario, call, outcomes): the classes are computed after shrinking
+				sig := names[i] + "|" + l[d] + "|" + a[d] + "|" + b[d]
+				if strings.HasSuffix(l[d], " snap") && d > 0 {
+					sig = names[i] + "|snap-after|" + l[d-1]
+				}
+				if !seenSig[sig] {
+					seenSig[sig] = true
+					found = append(found, dis{l, a, b})
+				}
+			}
+		}
 	} else {
 		r := lib.NewRng(seed*104729 + salt)
 		for hi := 0; hi < nh; hi++ {
